@@ -17,6 +17,8 @@ for f in sorted(glob.glob('/verif/seeded/*/meta.json')):
     globals()["own_n"] = own_n
     if m.get("missed_at_first"):
         det += " (missed at first: %s)" % m["missed_at_first"]
+    if m.get("strengthened_from_report"):
+        det += " (%s)" % m["strengthened_from_report"]
     rows.append("| %s | %s | %s | %s |" % (name, summ, needs, det))
 text = """## 9. Seeded changes
 
